@@ -29,7 +29,7 @@ Ranges == Assemble(n, nc, D, B, WSize)
 LayoutOK == stage = 1 =>
     /\ WellFormedSlices(n, D)
     /\ KeyedByCoreAndSlice(Ranges, n, nc, D, B)
-    /\ Aligned16(Ranges) /\ Disjoint(Ranges) /\ InStreamOrder(Ranges, BufLen(Ranges)) /\ SectionsInsideRange(Ranges)
+    /\ RangesAligned16(Ranges) /\ Disjoint(Ranges) /\ InStreamOrder(Ranges, BufLen(Ranges)) /\ SectionsInsideRange(Ranges)
 CoverageOK == stage = 1 => ChannelCoverage(n, nc, D, B)
 DoubleBufferOK == stage = 1 => DoubleBufferBound(Ranges, D, DoubleBufferOf(Ranges, D))
 
